@@ -36,7 +36,7 @@ func ruleC02(prog *Program, rep *Report) {
 	if len(exploreDigitFns) < 3 {
 		rep.Errorf("N-digit: found %d Number methods that use their byte as a digit (floor 3): anchors did not resolve", len(exploreDigitFns))
 	}
-	rep.Rules = append(rep.Rules, "N-digit: every reachable step that uses the dispatched byte as a decimal digit (b - '0' in the arm, or a Number method that computes it) is a step on one of the bytes '0'..'9' (a table cell that sends another byte to a digit arm changes the value without changing acceptance)",
+	rep.Rules = append(rep.Rules, "N-digit: every reachable step on a byte '1'..'9' that keeps the reference inside a number uses the byte as a decimal digit or adds it to the number's text (no path, such as the one on which the buffer ends right after the digit, leaves it out); every reachable step that uses the dispatched byte as a decimal digit (b - '0' in the arm, or a Number method that computes it) is a step on one of the bytes '0'..'9' (a table cell that sends another byte to a digit arm changes the value without changing acceptance)",
 		"A-accept (as in C01): a valid JSON text is not rejected (rejects-live, eof-reject) - without a value there is nothing that could denote the text")
 	exploreMirror = numberMirrorFns(prog)
 	if len(exploreMirror) < 3 {
@@ -45,12 +45,12 @@ func ruleC02(prog *Program, rep *Report) {
 	results := exploreFrontEnds(prog, jsonFrontEnds, []bool{false}, false)
 	applyParseResults(rep, results, union(kindsEvents, map[string]bool{"stale-scratch": true}), "A-events", 18)
 	reportKinds(rep, results, map[string]bool{"big-unmirrored": true}, "N-mirror")
-	reportKinds(rep, results, map[string]bool{"digit-misuse": true}, "N-digit")
+	reportKinds(rep, results, map[string]bool{"digit-misuse": true, "digit-dropped": true}, "N-digit")
 	reportKinds(rep, results, map[string]bool{"rejects-live": true, "eof-reject": true}, "A-accept")
 	sres := exploreFrontEnds(prog, senFrontEnds, []bool{false}, false, true)
 	exploreMirror = nil
 	applyParseResults(rep, sres, map[string]bool{"big-unmirrored": true}, "N-mirror", 12)
-	reportKinds(rep, sres, map[string]bool{"digit-misuse": true}, "N-digit")
+	reportKinds(rep, sres, map[string]bool{"digit-misuse": true, "digit-dropped": true}, "N-digit")
 	exploreDigitFns = nil
 }
 
